@@ -6,6 +6,7 @@ mod simfs;
 mod suite_filter;
 mod suite_log;
 mod suite_table;
+mod suite_version;
 mod util;
 
 fn main() {
@@ -21,6 +22,7 @@ fn main() {
         "key" => suite_table::run_key,
         "block" => suite_table::run_block,
         "table" => suite_table::run_table,
+        "vfn" => suite_version::run_vfn,
         _ => panic!("unknown suite {}", suite),
     };
     let stdin = std::io::stdin();
